@@ -763,6 +763,7 @@ func c05(c *Ctx) {
 		insts[k].Class = "addressing"
 	}
 
+	// (printed text of every instance is set below; the block check runs after that)
 	// toolchain: print, assemble, dump, decode
 	dir := filepath.Join(c.Tmp, "c05")
 	os.MkdirAll(dir, 0o755)
@@ -780,6 +781,7 @@ func c05(c *Ctx) {
 		}(k)
 	}
 	wg.Wait()
+	printedInBlocks(o, insts)
 	nAsm, nRej, nDec, nUndec, nCmpBad, nGnu, nZeroStore := 0, 0, 0, 0, 0, 0, 0
 	var renderRows []string
 	seenOp := map[string]bool{}
@@ -1024,4 +1026,72 @@ func classifyDiff(in *inst05, probs []string) string {
 		}
 	}
 	return in.Class + ":" + in.I.Opcode + " " + formShape(in.I)
+}
+
+// instrLineIn returns the line of the instruction (the first indented line that is not RET, or the only
+// one) of a function printed alone, whitespace-normalised.
+func soloLine(text string) string {
+	for _, ln := range strings.Split(text, "\n") {
+		if strings.HasPrefix(ln, "\t") {
+			return strings.Join(strings.Fields(ln), " ")
+		}
+	}
+	return ""
+}
+
+// printedInBlocks: the same instructions printed many to a function, neighbours of the same opcode with
+// other suffixes and operands next to each other, must each read exactly as when printed alone (the
+// printer aligns a block of instructions at once; nothing but the spacing may depend on the neighbours).
+func printedInBlocks(o *Out, insts []*inst05) {
+	var sel []*inst05
+	for _, in := range insts {
+		if in.I.IsBranch || in.I.IsTerminal || soloLine(in.Text) == "" {
+			continue
+		}
+		sel = append(sel, in)
+	}
+	sort.SliceStable(sel, func(a, b int) bool { return sel[a].I.Opcode < sel[b].I.Opcode })
+	const per = 64
+	bad := 0
+	for lo := 0; lo < len(sel); lo += per {
+		hi := lo + per
+		if hi > len(sel) {
+			hi = len(sel)
+		}
+		fn := ir.NewFunction("f")
+		fn.Attributes = 4
+		for _, in := range sel[lo:hi] {
+			fn.AddInstruction(cloneInstr(in.I))
+		}
+		fn.AddInstruction(&ir.Instruction{Opcode: "RET", IsTerminal: true})
+		f := ir.NewFile()
+		f.Includes = []string{"textflag.h"}
+		f.AddSection(fn)
+		out, err := printer.NewGoAsm(printer.Config{Name: "avo", Pkg: "p"}).Print(f)
+		if err != nil {
+			continue
+		}
+		var lines []string
+		for _, ln := range strings.Split(string(out), "\n") {
+			if strings.HasPrefix(ln, "\t") {
+				lines = append(lines, strings.Join(strings.Fields(ln), " "))
+			}
+		}
+		if len(lines) != hi-lo+1 {
+			o.Plan.GoViolations = append(o.Plan.GoViolations, GoViolation{Key: "printed-in-block:line-count", Desc: fmt.Sprintf("a function of %d instructions and RET prints %d instruction lines", hi-lo, len(lines)), Replay: map[string]any{"text": string(out)}})
+			continue
+		}
+		for k, in := range sel[lo:hi] {
+			if want := soloLine(in.Text); lines[k] != want && bad < 20 {
+				bad++
+				o.Plan.GoViolations = append(o.Plan.GoViolations, GoViolation{Key: "printed-in-block:" + in.I.Opcode, Desc: fmt.Sprintf("`%s` printed alone reads `%s`, but after `%s` in the same block it reads `%s`", instrLine(in.I), want, func() string {
+					if k > 0 {
+						return lines[k-1]
+					}
+					return "(first)"
+				}(), lines[k]), Replay: map[string]any{"instruction": want, "in_block": lines[k]}})
+			}
+		}
+	}
+	o.Plan.Stats["printed_in_blocks"] = len(sel)
 }
